@@ -19,6 +19,19 @@ def Wants (_sub : Sub) (g : Gen) (e : Ent) (q : Q) : Prop :=
 /-- `Spec.tables`: the union of the subscriptions of the given generations -/
 def Tables (sub : Sub) (gens : List Gen) (e : Ent) (q : Q) : Prop := ∃ g ∈ gens, Wants sub g e q
 
+/-- legacy notify channels (`Event.notify`, `Mqtt.notify`, `Webhook.notify`): queue `(id, k)` of generation `g` is
+subscribed to key `key` when the `k`-th decorator of that kind names it -/
+def WantsKey (keys : Gen → List String) (g : Gen) (key : String) (q : Q) : Prop :=
+  ∃ kn ∈ idxList (keys g), q = (g.id, kn.1) ∧ kn.2 = key
+
+/-- the union of the channel subscriptions of the given generations -/
+def ChanTables (keys : Gen → List String) (gens : List Gen) (key : String) (q : Q) : Prop :=
+  ∃ g ∈ gens, WantsKey keys g key q
+
+/-- how many declarations of `key` (decorators naming it) the given generations carry -/
+def demand (keys : Gen → List String) (gens : List Gen) (key : String) : Nat :=
+  (gens.map (fun g => (keys g).count key)).sum
+
 /-- event types with at least one subscriber -/
 def EvWanted (subsOfTy : String → List Q) (ty : String) : Prop := subsOfTy ty ≠ []
 
